@@ -52,6 +52,16 @@ func vhC25Handles() {
 	}
 	close(stop)
 	time.Sleep(50 * time.Millisecond) // let the cleaner goroutine take the stop and release what is left
+	// the handler stays usable after the cleaner was stopped: two more
+	// requests for the same file
+	for k := vChoose("requestsAfterStop", 3); k > 0; k-- {
+		c := &vsSegConn{segs: [][]byte{[]byte("GET /a.bin HTTP/1.1\r\nHost: a\r\nConnection: close\r\n\r\n")}}
+		s.ServeConn(c)
+		r := c24Read(c.wrote, false)
+		if !r.ok || r.status != 200 || r.body != string(da) {
+			bodiesOK = false
+		}
+	}
 	once, never := true, true
 	for _, fh := range vf.handles {
 		if fh.closed != 1 {
